@@ -24,6 +24,7 @@ def run(cx):
         "cached sample assigned; is_pressed()/read() translations are evaluated and may not / must read the pin; who may emit "
         "digitalRead is inventoried; the ultrasonic helper's retry bound, back-off guard, conversion factor and fallback chain "
         "are checked; the host Button is checked by C20's rules (shared); timing behaviour and click counts are not decided"
+        " Since round 10 whole scripts are also taken through parse() and emit() (partial evaluation), the emitted translation unit is parsed by clang and interpreted by the checker's C evaluator on a scripted board (never compiled to code or run); for the button scripts the pin must be read exactly once in setup() and once per loop() pass and every is_pressed() of a pass must answer from that sample (C15-CACHED; the former who-may-emit-digitalRead rule was a spelling rule and is gone)."
     )
     cls, fields = pe.ir_classes()
 
